@@ -600,13 +600,17 @@ fn lex_char(
         }
 
         // Emit the expected closing quote error.
+        // The span runs from the first unexpected character to the end of the literal.
+        // (The byte length of the *parsed* string must not be used here: escapes and
+        // multi-byte characters make it differ from the length of the source text.)
+        let span = span_until(l, next_index);
         error(
             l.handler,
             LexError {
                 kind: LexErrorKind::ExpectedCloseQuote {
                     position: next_index,
                 },
-                span: span(l, next_index, next_index + string.len()),
+                span,
             },
         );
 
